@@ -22,7 +22,9 @@ struct BufStream {
     void read(std::span<std::byte> dst)
     {
         if (rpos + dst.size() > wpos) throw std::ios_base::failure("BufStream::read: end of data");
-        for (size_t i = 0; i < dst.size(); i++) dst[i] = (std::byte)buf[rpos + i];
+        // 2-byte scalars (3-byte compact sizes, ports) are stored with one typed store so that constant header bytes stay constant in symex
+        if (dst.size() == 2 && rpos + 2 <= CAP) { const uint16_t v = (uint16_t)(buf[rpos] | (buf[rpos + 1] << 8)); memcpy(dst.data(), &v, 2); }
+        else for (size_t i = 0; i < dst.size(); i++) dst[i] = (std::byte)(rpos + i < CAP ? buf[rpos + i] : 0);   // wpos may be set beyond CAP: virtual zero bytes
         rpos += dst.size();
     }
     void ignore(size_t n)
@@ -89,7 +91,7 @@ static inline void set_addr(CNetAddr& a, const uint8_t* raw, int cls)
 // build a CNetAddr from BIP155 bytes through the real V2 unserializer; returns false if it threw
 static inline bool unser_v2(CNetAddr& a, const uint8_t* wire, size_t n)
 {
-    BufStream<600> bs;
+    BufStream<40> bs;   // <= 64 bytes: CBMC tracks each cell separately (constant propagation of the header bytes)
     for (size_t i = 0; i < n; i++) bs.buf[i] = wire[i];
     bs.wpos = n;
     ParamsStream ps{bs, CNetAddr::V2};
@@ -154,15 +156,15 @@ static inline bool same_prefix(const RefAddr& a, const RefAddr& b, int len)
     if (len > W) return false;
     return (a.v >> (W - len)) == (b.v >> (W - len));
 }
-// prefix length of a netmask (ones then zeros over the family width), -1 if it is not of that form
+// prefix length of a netmask (ones then zeros over the family width), -1 if it is not of that form.
+// ones-then-zeros <=> the complement is of the form 0..01..1 <=> adding one to the complement clears all of its bits.
+static inline int popcnt64(uint64_t x) { x = x - ((x >> 1) & 0x5555555555555555ULL); x = (x & 0x3333333333333333ULL) + ((x >> 2) & 0x3333333333333333ULL); x = (x + (x >> 4)) & 0x0f0f0f0f0f0f0f0fULL; return (int)((x * 0x0101010101010101ULL) >> 56); }
 static inline int ref_mask_len(const RefAddr& m)
 {
     if (m.net != R_IPV4 && m.net != R_IPV6) return -1;
     const int W = m.len * 8;
     const u128 full = W == 128 ? ~(u128)0 : ((((u128)1) << W) - 1);
-    for (int n = 0; n <= W; n++) {
-        const u128 want = n == 0 ? 0 : (full >> (W - n)) << (W - n);
-        if (m.v == want) return n;
-    }
-    return -1;
+    const u128 inv = (~m.v) & full;
+    if ((inv & (inv + 1)) != 0) return -1;
+    return popcnt64((uint64_t)m.v) + popcnt64((uint64_t)(m.v >> 64));
 }
